@@ -98,8 +98,11 @@ KNOWN = {
     "read_key_T": {"556dd1837c8040df"},
     "read_key_str": {"ccf62af5ab74fe48"},
     "write_key": {"80ba479b1e14a23a"},
-    "aux_read_block": {"f0f3df3eae996845"},
-    "aux_write_loop": {"5354cbc54052233d"},
+    "aux_read_block": {"f0f3df3eae996845",
+                       # + the ownership fixes of C20 (aux array pre-filled with nullptr, key stored before the value block is
+                       # requested, value block sized to the stored length incl. collapsed quotes): same keys and values stored
+                       "6257dfdf913ff1b2"},
+    "aux_write_loop": {"5354cbc54052233d", "2ffe00d867f25bea"},   # second: with repo patch C08_2 (coefficient write_pix moved between the aux loop and the knot loop; the loop itself is unchanged)
     "c_get_key": {"ca9051007a02b999"},
     "c_read_key": {"0c955a41c4f2a000"},
     "c_write_key": {"355da0b52c5f5452"},
@@ -183,6 +186,10 @@ def main():
     blk = core[a:b]
     blk, unquote = cut(blk, "if(value[0]=='\\''){char*out=&aux[i][1][0];for(constchar*in=out;*in;in++){if(in[0]=='\\''&&in[1]=='\\'')in++;*out++=*in;}*out='\\0';}",
                        "undoing of doubled quotes")
+    if not unquote:
+        # the same loop applied to the text in the local buffer before it is stored (after the ownership fixes)
+        blk, unquote = cut(blk, "char*out=stored;for(constchar*in=stored;*in;in++){if(in[0]=='\\''&&in[1]=='\\'')in++;*out++=*in;}*out='\\0';",
+                           "undoing of doubled quotes (local buffer)")
     sk["aux_read_block"] = blk
     wcore = norm(body_after(fh, r"splinetable<Alloc>::write_fits_core\s*\("))
     a, b = wcore.find("for(uint32_ti=0;i<naux;i++)"), wcore.find("for(uint32_ti=0;i<ndim;i++){if(nknots[i]>")
